@@ -565,6 +565,7 @@ func (q *TaskQueue) waitForTask(sleepDelay time.Duration) task.Task {
 			// Queue is stopped.
 			return nil
 		case <-checkTicker.C:
+			verifsched.Point("queue.wait.tick", q.Name)
 			// Check and update waitUntil.
 			elapsed := time.Since(waitBegin)
 
